@@ -47,7 +47,30 @@ GEN_MAPS = [
     (2.0, (("Scaffold_1", (("HAP1_SCAFFOLD_1", 1, 36, 1, ("Painted", "Hap1")),)), ("Scaffold_2", (("HAP2_SCAFFOLD_2", 1, 50, 1, ("Painted", "Hap2")),)))),
     (2.0, (("Scaffold_1", (("HAP2_SCAFFOLD_2", 1, 36, -1, ()),)), ("Scaffold_2", (("HAP2_SCAFFOLD_2", 37, 50, 1, ()), ("HAP1_SCAFFOLD_1", 1, 36, 1, ()))))),
 ]
-GEN_CASES = [(0, 0), (0, 1), (1, 2), (1, 3)]  # (input index, map index)
+GEN_INPUTS.append(
+    (
+        ("scaffold_1", (("F", "scaffold_1", 1, 40, 1), ("G", 6, "scaffold"))),  # a scaffold that ends in Ns, not last in the file
+        ("scaffold_2", (("F", "scaffold_2", 1, 30, 1), ("G", 4, "scaffold"), ("F", "scaffold_2", 35, 60, 1))),
+    )
+)
+GEN_MAPS.append((2.0, (("Scaffold_1", (("scaffold_1", 1, 46, 1, ()),)), ("Scaffold_2", (("scaffold_2", 1, 20, 1, ()),)), ("Scaffold_3", (("scaffold_2", 21, 60, -1, ()),)))))
+GEN_CASES = [(0, 0), (0, 1), (1, 2), (1, 3), (2, 4)]  # (input index, map index)
+# the same scaffold names with another gap layout: what an older version of the FASTA looked like
+ALT_INPUTS = [
+    (
+        ("scaffold_1", (("F", "scaffold_1", 1, 30, 1), ("G", 20, "scaffold"), ("F", "scaffold_1", 51, 90, 1))),
+        ("scaffold_2", (("F", "scaffold_2", 1, 30, 1),)),
+    ),
+    (
+        ("HAP1_SCAFFOLD_1", (("F", "HAP1_SCAFFOLD_1", 1, 10, 1), ("G", 6, "scaffold"), ("F", "HAP1_SCAFFOLD_1", 17, 36, 1))),
+        ("HAP2_SCAFFOLD_2", (("F", "HAP2_SCAFFOLD_2", 1, 50, 1),)),
+        ("scaffold_3", (("F", "scaffold_3", 1, 2, 1),)),
+    ),
+    (
+        ("scaffold_1", (("F", "scaffold_1", 1, 20, 1), ("G", 26, "scaffold"))),
+        ("scaffold_2", (("F", "scaffold_2", 1, 60, 1),)),
+    ),
+]
 
 
 def env_for(seed):
@@ -297,7 +320,7 @@ class C17(Check):
             n = 0
             for seed in seeds:
                 for cwd in ("/", "scratch"):
-                    for cache in ("cold", "warm"):
+                    for cache in ("cold", "warm", "stale", "half-updated"):
                         n += 1
                         base = d / f"r{n}"
                         (base / "in").mkdir(parents=True)
@@ -307,12 +330,31 @@ class C17(Check):
                         os.utime(base / "in" / "asm.fa", (1_000_000, 1_000_000))
                         argv = ["-a", str(base / "in" / "asm.fa"), "-p", str(base / "in" / "map.agp"), "-o", str(base / "out" / "x.fa")]
                         cw = "/" if cwd == "/" else str(base)
-                        if cache == "warm":
+                        if cache != "cold":
+                            fa = base / "in" / "asm.fa"
+                            if cache in ("stale", "half-updated"):
+                                # the cache is built from an older version of the FASTA (other gap layout) ...
+                                cli.write_fasta(fa, ALT_INPUTS[ii], width=11)
+                                os.utime(fa, (1_000_000, 1_000_000))
                             (base / "warmup").mkdir()
                             worker("cli", {"argv": argv[:-1] + [str(base / "warmup" / "x.fa")], "cwd": cw}, seed=seed)
                             shutil.rmtree(base / "warmup", ignore_errors=True)
                             if not (base / "in" / "asm.fa.fai").exists():
                                 ctx.violation("cache-not-written", ["gencli", gi, seed, cwd, cache], "no .fai after the warm-up run")
+                            if cache in ("stale", "half-updated"):
+                                # ... then the FASTA is replaced, with a later mtime than both cache files
+                                cli.write_fasta(fa, GEN_INPUTS[ii], width=11)
+                                later = os.stat(str(fa) + ".agp").st_mtime + 100
+                                os.utime(fa, (later, later))
+                                if cache == "half-updated":
+                                    # an indexing run that died between the two cache files: fresh .fai, old .agp
+                                    from tola.fasta.index import index_fasta_file
+
+                                    idx, _ = index_fasta_file(fa, 7)
+                                    with open(str(fa) + ".fai", "w") as fh:
+                                        for n_, info in idx.items():
+                                            fh.write(info.fai_row(n_))
+                                    os.utime(str(fa) + ".fai", (later + 100, later + 100))
                         codes = json.loads(worker("cli", {"argv": argv, "cwd": cw}, seed=seed).strip().splitlines()[-1])
                         files = files_norm(base / "out", base)
                         cachefiles = files_norm(base / "in", base)
@@ -325,8 +367,11 @@ class C17(Check):
                                 ctx.violation("generated-case-fails", case, f"exit {codes}")
                         else:
                             ctx.nontrivial += 1
-                            if codes != ref[1] or files != ref[2]:
-                                diff = sorted(k for k in set(files) | set(ref[2]) if files.get(k) != ref[2].get(k))
+                            diff = sorted(k for k in set(files) | set(ref[2]) if files.get(k) != ref[2].get(k))
+                            if cache in ("stale", "half-updated"):
+                                # a stale cache is announced in the log (warnings about the old files): the log is not compared there
+                                diff = [k for k in diff if not k.endswith(".log")]
+                            if codes != ref[1] or diff:
                                 ctx.violation("cli-output-depends-on-seed-cwd-or-cache", case, f"differs from {ref[0]!r} in {diff!r}")
                             elif cachefiles != ref[3]:
                                 diff = sorted(k for k in set(cachefiles) | set(ref[3]) if cachefiles.get(k) != ref[3].get(k))
